@@ -47,7 +47,37 @@ pub fn rule_claimed(def: &CheckDef, rule: &str) -> bool {
 pub fn generate(id: &str, run_seed: u64, thorough: bool) -> Plan {
     let mut plan = generate_family(id, run_seed, thorough);
     retry_abandoned(&mut plan, run_seed);
+    repeat_ids(&mut plan, run_seed);
     plan
+}
+
+/// A share of the acknowledgements, deadline modifications and control frames name their ack IDs
+/// twice or three times in one request (a client library batching an application nack with its own
+/// shutdown nack): legal, and it must behave like naming them once.
+fn repeat_ids(plan: &mut Plan, run_seed: u64) {
+    let mut n = 0u64;
+    for phase in plan.phases.iter_mut() {
+        for script in phase.scripts.iter_mut() {
+            for st in script.iter_mut() {
+                n += 1;
+                if mix2(run_seed ^ 0x7E9EA7, n) % 100 >= 8 {
+                    continue;
+                }
+                let times = 1 + (mix2(run_seed ^ 0x7E9EA8, n) % 2) as u32;
+                match &mut st.op {
+                    Op::Ack { sel, .. } | Op::ModAck { sel, .. } if sel.filler == 0 && sel.bad_at.is_none() && sel.pick != crate::plan::Pick::None => sel.repeat = times,
+                    Op::StreamSend { ack, modack, .. } => {
+                        if modack.pick != crate::plan::Pick::None && modack.bad_at.is_none() {
+                            modack.repeat = times;
+                        } else if ack.pick != crate::plan::Pick::None && ack.bad_at.is_none() {
+                            ack.repeat = times;
+                        }
+                    }
+                    _ => {}
+                }
+            }
+        }
+    }
 }
 
 /// Client retries (request duplication): a request whose client went away is, in a share of the
@@ -134,6 +164,9 @@ fn generate_family(id: &str, run_seed: u64, _thorough: bool) -> Plan {
             } else if pick < 45 {
                 // a slow StreamingPull client next to waiting consumers
                 f_stalled(run_seed)
+            } else if pick < 50 {
+                // push deliveries whose endpoint answers slowly or never: not POSTed again inside the lease
+                f_push(run_seed, false)
             } else if pick < 90 {
                 f_general(run_seed, &GeneralOpts { deletes: false, push: pick >= 75, ..full })
             } else {
@@ -149,6 +182,10 @@ fn generate_family(id: &str, run_seed: u64, _thorough: bool) -> Plan {
             } else if pick < 44 {
                 // push deliveries: the lease of a POST that the endpoint answers slowly or never
                 f_push(run_seed, false)
+            } else if pick < 52 {
+                // consumers that go away while their pull is being answered: what they were handed is
+                // redelivered at its deadline, once, and not before
+                f_consumers(run_seed, true)
             } else {
                 f_lease(run_seed, &LeaseOpts { modacks: false, limits: pick < 50 })
             }
